@@ -358,33 +358,33 @@ func (c *Ctx) checkBinaryCall(name string, apply *ssa.Function, call *ssa.Call) 
 	if bad != "" {
 		return bad, kernel
 	}
-		if want, isArith := binaryKernels[name]; isArith {
-			got := c.kernelTerm(kernel)
-			if got != want {
-				bad = fmt.Sprintf("kernel %s computes %s, expected gorgonia %s", fname(kernel), got, want)
-			}
-		} else {
-			// boolean: kernel calls the coordinate iterator helper with a closure; check the truth table
-			var closure *ssa.Function
-			okOrder := false
-			for _, b := range kernel.Blocks {
-				for _, in := range b.Instrs {
-					if cl, ok := in.(*ssa.Call); ok && len(cl.Common().Args) == 3 {
-						if f := funcValueOf(cl.Common().Args[2]); f != nil {
-							closure = f
-							okOrder = cl.Common().Args[0] == ssa.Value(kernel.Params[0]) && cl.Common().Args[1] == ssa.Value(kernel.Params[1])
-						}
+	if want, isArith := binaryKernels[name]; isArith {
+		got := c.kernelTerm(kernel)
+		if got != want {
+			bad = fmt.Sprintf("kernel %s computes %s, expected gorgonia %s", fname(kernel), got, want)
+		}
+	} else {
+		// boolean: kernel calls the coordinate iterator helper with a closure; check the truth table
+		var closure *ssa.Function
+		okOrder := false
+		for _, b := range kernel.Blocks {
+			for _, in := range b.Instrs {
+				if cl, ok := in.(*ssa.Call); ok && len(cl.Common().Args) == 3 {
+					if f := funcValueOf(cl.Common().Args[2]); f != nil {
+						closure = f
+						okOrder = cl.Common().Args[0] == ssa.Value(kernel.Params[0]) && cl.Common().Args[1] == ssa.Value(kernel.Params[1])
 					}
 				}
 			}
-			if closure == nil {
-				bad = "boolean kernel does not apply an element closure"
-			} else if tt := truthTable(closure, 2); tt != boolTables[name] {
-				bad = fmt.Sprintf("element function has truth table %s (inputs 00,01,10,11), %s requires %s", tt, name, boolTables[name])
-			} else if !okOrder {
-				bad = "operands swapped on the way to the element loop"
-			}
 		}
+		if closure == nil {
+			bad = "boolean kernel does not apply an element closure"
+		} else if tt := truthTable(closure, 2); tt != boolTables[name] {
+			bad = fmt.Sprintf("element function has truth table %s (inputs 00,01,10,11), %s requires %s", tt, name, boolTables[name])
+		} else if !okOrder {
+			bad = "operands swapped on the way to the element loop"
+		}
+	}
 	return bad, kernel
 }
 
